@@ -5,7 +5,25 @@ _an = I + "cfg/analysis.py"
 
 _cfgc = I + "compiler/cfg_compiler.py"
 
+_ec = I + "checker/expr_checker.py"
+
 M = {
+    "C16": [
+        ("coercion tried with actual and expected swapped", _ec,
+         "        if coerced := try_coerce_to(act, exp, node, ctx):", "        if coerced := try_coerce_to(exp, act, node, ctx):", "R-C16.2"),
+        ("coercion tried before unification", _ec,
+         "    subst = unify(exp, act, {})\n    if subst is None:\n        # Maybe we can implicitly coerce `act` to `exp`\n        if coerced := try_coerce_to(act, exp, node, ctx):\n            return coerced, {}, []\n",
+         "    if coerced := try_coerce_to(act, exp, node, ctx):\n        return coerced, {}, []\n    subst = unify(exp, act, {})\n    if subst is None:\n", "R-C16.2"),
+        ("the uncoerced node is returned after a successful coercion", _ec,
+         "            return coerced, {}, []\n        raise GuppyTypeError(TypeMismatchError(node, exp, act, kind))",
+         "            return node, {}, []\n        raise GuppyTypeError(TypeMismatchError(node, exp, act, kind))", "R-C16.2"),
+        ("a failed coercion falls through to success", _ec,
+         "            return coerced, {}, []\n        raise GuppyTypeError(TypeMismatchError(node, exp, act, kind))\n    return node, subst, []",
+         "            return coerced, {}, []\n        subst = {}\n    return node, subst, []", "R-C16.2"),
+        ("benign: guard clauses in check_type_against, walrus removed", _ec,
+         "    if subst is None:\n        # Maybe we can implicitly coerce `act` to `exp`\n        if coerced := try_coerce_to(act, exp, node, ctx):\n            return coerced, {}, []\n        raise GuppyTypeError(TypeMismatchError(node, exp, act, kind))\n    return node, subst, []",
+         "    if subst is not None:\n        return node, subst, []\n    converted = try_coerce_to(act, exp, node, ctx)\n    if converted is None:\n        raise GuppyTypeError(TypeMismatchError(node, exp, act, kind))\n    return converted, {}, []", None),
+    ],
     "C11": [
         ("return variables inserted on every lowering", _cfgc,
          "    if all(\n        not is_return_var(v.name)\n        for v in cfg.exit_bb.sig.input_row\n        if isinstance(v, Variable)\n    ):\n        insert_return_vars(cfg)",
